@@ -42,7 +42,12 @@ RULE = ("cases = (box 8..48 per axis, map kind, low-/high-pass cutoffs 1..N0/2 a
         "widths 0..4, relational filter, roll, coefficients) stratified over the named classes; every case drives lowpass, "
         "highpass and bandpass plus linearity and roll on one of them; non-trivial = the driven map has Fourier components on "
         "both sides of the low-pass cutoff (plane-wave cases: some chosen k inside and some outside; resolution_noncubic: the "
-        "first-axis rule gives a different cutoff than another axis would); distinct by digest of all those parameters")
+        "first-axis rule gives a different cutoff than another axis would); distinct by digest of all those parameters.  Planted in every "
+        "run: grey-value scales 1e-12..1e12 (unit-sum densities, h*x with |h| = 1e-12..1e11, plane-wave amplitudes 1e-12..1e12), "
+        "fourier_pixels together with small pixel sizes (0.04..0.3) next to Nyquist, box sizes 2^k-1/2^k/2^k+1 and 8/48, quotients "
+        "1e-9..5e-7 from a rounding tie and exact odd-floor ties, rare widths (1e-9, 0.124/0.125, nextafter(4,0)), argument types "
+        "(int, np.int32/int64/uint8, float, np.float32/float64), option_pairs (10 small sub-configurations per case with independently "
+        "drawn options), history_inplace (one caller-owned array modified in place between calls, lp_cut == hp_cut bands)")
 ASSUMPTIONS = [
     "frequency radius r(k) = sqrt(kx^2+ky^2+kz^2) with k_i the signed integer DFT index along axis i (Fourier pixels of the mask "
     "grid, -N_i/2..ceil(N_i/2)-1), also in non-cubic boxes (a ball in index space, not in cycles/voxel) - measured on the unchanged "
@@ -67,6 +72,9 @@ ASSUMPTIONS = [
     "sigma 2, k=(0,2,-2)->(0,3,-3): +2.2e-8) - counted in observed.soft_executions_with_cutoff_beyond_a_short_axis_rays_not_judged, "
     "not judged (accepted by the lead); 'depends on the radius' is judged as invariance under swaps of equal axes and single-index "
     "sign flips when cut+4s+1 < min(N)/2 (DESIGN 4/C12)",
+    "every oracle is relative to the map's own scale (max|x|, max|F|): the filters are linear, so maps over 24 orders of magnitude are in "
+    "the quantifier ('all real maps') and an absolute error is a relative one on small-valued maps; float32 maps are kept within 1e-12..1e12 "
+    "too (values next to the float32 maximum overflow numpy's single-precision FFT and are not generated)",
     "band-pass gain >= 0 is judged only where it follows from the statement: equal widths and hp <= lp, or stop band of the inner "
     "filter reached before the outer one starts to fall; band-pass == LP(lp) - LP(hp) is judged always",
 ]
@@ -98,8 +106,8 @@ def plan(tier):
                                "resolution_equiv": 500})
     return dict(n_cases=16 * 50 * len(CLASSES), shards=16, classes=CLASSES, timeout_s=3300,
                 min_evals={"lp_gain": 90000, "lp_hard_edge": 45000, "lp_soft_edge": 45000, "lp_soft_rays": 20000, "lp_soft_symmetry": 16000,
-                           "hp_gain": 90000, "hp_complement": 90000, "bp_difference": 45000, "bp_gain": 45000, "res2pix": 130000,
-                           "filter_radius": 200000, "linearity": 30000, "shift_commute": 15000, "plane_wave": 150000,
+                           "hp_gain": 90000, "hp_complement": 90000, "bp_difference": 45000, "bp_gain": 45000, "res2pix": 160000,
+                           "filter_radius": 250000, "linearity": 30000, "shift_commute": 15000, "plane_wave": 150000,
                            "resolution_equiv": 12000})
 
 
